@@ -20,7 +20,10 @@ PairTokS == IF Alpha = "quick" THEN {<<97>>, <<98>>, <<44>>, EAcute, Bad}
             ELSE {<<97>>, <<98>>, <<44>>, EAcute, Bad, AGrave, Cont}
 PairTokP == IF Alpha = "quick" THEN {<<97>>, <<44>>, EAcute, Bad}
             ELSE {<<97>>, <<44>>, EAcute, Bad, Cont, <<195>>}
-UnaryTok == {<<97>>, <<90>>, <<32>>, <<9>>, <<194, 160>>, <<226, 128, 131>>, <<226, 128, 139>>, EAcute,
+UnaryTok == IF Alpha = "thorough"      \* the longer texts of the thorough tier use nine of the tokens
+            THEN {<<97>>, <<32>>, <<194, 160>>, <<226, 128, 139>>, <<195, 159>>, <<196, 176>>, <<199, 134>>, Bad, <<226, 130>>}
+            ELSE
+            {<<97>>, <<90>>, <<32>>, <<9>>, <<194, 160>>, <<226, 128, 131>>, <<226, 128, 139>>, EAcute,
              <<195, 159>>, <<196, 176>>, <<196, 177>>, <<199, 134>>, <<199, 133>>, Bad, <<226, 130>>}
              \* a Z space tab NBSP EM-SPACE ZWSP(not white) e-acute sharp-s dotted-I dotless-i dz Dz bad truncated
 
